@@ -1,23 +1,47 @@
-"""python3 lib/seeded_table.py: markdown table of all seeded changes (from seeded/*/meta.json)"""
-import glob, json, os
+"""python3 lib/seeded_table.py [--full] : markdown table of all seeded changes (from seeded/*/meta.json).
+default: compact table for DESIGN.md 12.5 (result column shortened); --full: complete detection text (written to seeded/README.md by hand:
+python3 lib/seeded_table.py --full > seeded/README.md)"""
+import glob, json, os, re, sys
 ROOT = os.path.dirname(os.path.dirname(os.path.abspath(__file__)))
+FULL = "--full" in sys.argv
+
+
+def order(sid):
+    m = re.match(r"(C\d+)-adv(?:(\d)-)?(\d)$", sid)
+    return (m.group(1), int(m.group(2) or 1), int(m.group(3))) if m else (sid, 9, 9)
+
+
 rows = []
-for d in sorted(glob.glob(os.path.join(ROOT, "seeded", "*", "meta.json"))):
+for d in glob.glob(os.path.join(ROOT, "seeded", "*", "meta.json")):
     m = json.load(open(d))
-    det = m["detection"]
-    if det.startswith("caught on the first run") or det.startswith("caught on first run") or det.startswith("caught first run"):
-        res = "caught on the first run"
-    elif det.startswith("caught, but only after strengthening"):
-        res = "caught only after strengthening prompted by the adversary's description: " + det.split(":", 1)[1].strip()
-    elif det.upper().startswith("MISSED"):
-        res = "**missed** at first; " + det.split(";", 1)[-1].strip() if ";" in det else "**missed**: " + det
+    det = m["detection"].strip()
+    low = det.lower()
+    if low.startswith("caught on the first run") or low.startswith("caught on first run") or low.startswith("caught first run"):
+        cls, res = "first", "caught on the first run"
+        if FULL:
+            res = det
+    elif low.startswith("caught, but only after strengthening") or low.startswith("caught after") or low.startswith("caught only after"):
+        cls = "pre"
+        res = "caught only after a strengthening made on reading the adversary's description, before the first run: " + det.split(":", 1)[-1].strip()
+    elif low.startswith("missed"):
+        cls = "miss"
+        rest = re.sub(r"^missed( on the first run| at first)?[ ;:,.]*", "", det, flags=re.I).strip()
+        res = "**missed** on the first run " + rest if rest else "**MISSED** (still open)"
     else:
-        res = det
+        cls, res = "other", det
     t = m["title"].replace("|", "/")
-    rows.append((m["id"], t[:120], res.replace("|", "/")[:300]))
+    t = re.sub(r"^C\d+ / (round \d / )?change \d+ *[-—] *", "", t)
+    res = res.replace("|", "/")
+    if not FULL:
+        t = t[:110]
+        res = res[:330] + ("..." if len(res) > 330 else "")
+    rows.append((order(m["id"]), m["id"], t, res, cls))
+rows.sort()
 n = len(rows)
-first = sum(1 for r in rows if r[2].startswith("caught on the first run"))
-print(f"{n} seeded changes; {first} caught on the first run of the owning check, {n - first} only after the monitor was strengthened.\n")
+cnt = {c: sum(1 for r in rows if r[4] == c) for c in ("first", "pre", "miss", "other")}
+print(f"{n} seeded changes: {cnt['first']} caught on the first run of the owning check; {cnt['pre']} caught only thanks to a strengthening made after reading "
+      f"the adversary's description but before the first run; {cnt['miss']} missed on the first run and caught after the monitor was strengthened"
+      + (f"; {cnt['other']} other" if cnt["other"] else "") + ".\n")
 print("| id | change | result |\n|---|---|---|")
 for r in rows:
-    print(f"| {r[0]} | {r[1]} | {r[2]} |")
+    print(f"| {r[1]} | {r[2]} | {r[3]} |")
